@@ -229,6 +229,79 @@ func scriptFeature(s *traceql_parser.TraceQLScript) string {
 	return strings.Join(fs, "+")
 }
 
+// semClasses: the case in the terms of the theorems (extension c11y): the chain of selectors (`tree_means_script`,
+// `planComplex_heap_closed_upto`: number of selectors, operators between them), the unit of an aggregate over `duration`
+// (`agg_duration_literal`), and what the aggregated attribute looks like in the database (`aggValue`: spans without the
+// attribute or with a non-numeric value contribute nothing)
+func semClasses(s *traceql_parser.TraceQLScript, rows []tqAttrRow) []string {
+	var out []string
+	n, and, or := 0, 0, 0
+	for cur := s; cur != nil; cur = cur.Tail {
+		n++
+		if cur.Tail != nil {
+			switch cur.AndOr {
+			case "&&":
+				and++
+			case "||":
+				or++
+			}
+		}
+		a := cur.Head.Aggregator
+		if a == nil {
+			continue
+		}
+		if a.Attr == "duration" {
+			u := a.Measurement
+			if u == "" {
+				u = "none"
+			}
+			out = append(out, "agg:duration:unit="+u)
+			continue
+		}
+		if a.Attr == "" {
+			continue
+		}
+		key := stripAttrPrefix(a.Attr)
+		has, nonNum, num := false, false, false
+		for _, r := range rows {
+			if r.Key != key {
+				continue
+			}
+			has = true
+			if _, err := strconv.ParseFloat(r.Val, 64); err != nil {
+				nonNum = true
+			} else {
+				num = true
+			}
+		}
+		switch {
+		case !has:
+			out = append(out, "agg:attr:missing-everywhere")
+		case nonNum && num:
+			out = append(out, "agg:attr:numeric-and-non-numeric-values")
+		case nonNum:
+			out = append(out, "agg:attr:only-non-numeric-values")
+		default:
+			out = append(out, "agg:attr:numeric-values")
+		}
+	}
+	kind := "single"
+	switch {
+	case and > 0 && or > 0:
+		kind = "mixed"
+	case and > 0:
+		kind = "all-and"
+	case or > 0:
+		kind = "all-or"
+	}
+	if n >= 3 {
+		out = append(out, fmt.Sprintf("chain:%d-selectors:%s", n, kind))
+	} else {
+		out = append(out, fmt.Sprintf("chain:%d-selectors", n))
+	}
+	return out
+}
+
 // c11Sem: the semantic oracle — Sql.SemG of the model's statement (byte-equal to the real one: checked here
 // again) against TraceQL.Sem on small databases
 func c11Sem(r *h.Rng, res *h.Result, n int, maxSel int, replay *tqReplay) error {
@@ -266,6 +339,9 @@ func c11Sem(r *h.Rng, res *h.Result, n int, maxSel int, replay *tqReplay) error 
 		ops = append(ops, "c11eval "+c.ser()+" "+ser+" "+serDb(rows))
 		cases = append(cases, tqReplay{Query: query, Ctx: c, Db: rows})
 		feats = append(feats, scriptFeature(script))
+		for _, cl := range semClasses(script, rows) {
+			res.Count("sem:class:" + cl)
+		}
 		tieOps = append(tieOps, "c11plan "+c.ser()+" "+ser)
 		tieImpl = append(tieImpl, h.Hex([]byte(texts[0])))
 		tieCases = append(tieCases, map[string]any{"query": query, "ctx": c})
